@@ -3,7 +3,7 @@ from tools.extract import Unit, Rw
 from tools.krun import Harness
 
 PROPERTY = "C14"
-PRELUDE = ["../common/base.rs", "prelude.rs", "streamer_specs.rs"]
+PRELUDE = ["../common/base.rs", "prelude.rs", "streamer_specs.rs", "restore_stubs.rs"]
 T = "crates/core/src/blob/tree.rs"
 R_ERR = Rw("", "verr()", count=None, kind="err", optional=True, why="RusticError construction (kind/message/context dropped)")
 R_DISCARD = Rw(r"(?m)^(\s*)_ = ", r"\1let _ = ", regex=True, count=None, optional=True, why="`_ = e;` -> `let _ = e;`")
@@ -33,6 +33,82 @@ UNITS = [
          loops={1: """
             invariant self.wf(),
 """},
+         ),
+]
+RS = "crates/core/src/commands/restore.rs"
+UNITS += [
+    Unit(name="BlobLocation", file="crates/core/src/blob.rs", kind="type", anchor="pub struct BlobLocation {", attrs="#[derive(Clone, Copy)]"),
+    Unit(name="data_length", file="crates/core/src/blob.rs", anchor="pub const fn data_length(&self) -> u32", ret_name="r",
+         wrap_open="impl BlobLocation {", wrap_close="}",
+         functions=["blob::BlobLocation::data_length"],
+         rewrites=[Rw("NonZeroU32::get(length)", "length", why="NonZeroU32::get (NonZeroU32 modelled as u32)")],
+         contract="""
+    requires
+        self.uncompressed_length is None ==> self.length >= 32,   // an encrypted blob is at least nonce + MAC long
+    ensures
+        /*@data_length*/ r == (match self.uncompressed_length { None => (self.length - 32) as u32, Some(l) => l }),
+"""),
+    Unit(name="FileLocation", file=RS, kind="type", anchor="struct FileLocation {", attrs="#[derive(Clone, Copy)]"),
+    Unit(name="add_file_blobs", file=RS, kind="block", within="fn add_file<S: IndexedFull>(",
+         anchor="let file_idx = self.names.len();", block_end="@fn_end",
+         block_sig="fn add_file_blobs(this: &mut RestorePlan, file: &Node, name: PathBufR, repo: &VRepoR, mut open_file: Option<OpenDestFile>) -> (res: RusticResult<AddFileResult>)",
+         block_tail="",
+         functions=["commands::restore::RestorePlan::add_file (blob placement part: from `let file_idx` to the end)"],
+         rewrites=[
+             Rw("self.", "this.", count=None, why="statement-block unit: self -> parameter"),
+             Rw("for id in file.content.iter().flatten() {", "for id in it: vcontent(file).iter() {", why="Option<Vec<_>>::iter().flatten() -> slice of the content (empty if None); Verus for syntax"),
+             Rw(r"open_file\s*\.as_mut\(\)\s*\.is_some_and\(\|file\| id\.blob_matches_reader\(length, file\)\)", "vblob_matches_existing(&mut open_file, id, length)", regex=True,
+                why="comparison of the existing destination file with the blob: arbitrary boolean, false without a file"),
+             Rw("let blob_location = this.r.entry((ie.pack, bl)).or_default();", "", why="BTreeMap entry API folded into the next rewrite"),
+             Rw(r"blob_location\.push\(FileLocation \{(?P<f>.*?)\}\);", r"vplan_push(&mut this.r, ie.pack, bl, FileLocation {\g<f>});", regex=True,
+                why="BTreeMap<(PackId, BlobLocation), SmallVec<FileLocation>> entry push -> append-only plan log"),
+             Rw("bl.data_length().into()", "bl.data_length() as u64", why="u32 -> u64"),
+         ],
+         contract="""
+    requires
+        // the index entries of the file's blobs are well formed (an encrypted blob is >= 32 bytes long)
+        forall|k: int| 0 <= k < content_of(*file).len() ==> dlen(#[trigger] content_of(*file)[k]) >= 0,
+        // counters of the plan are plain u64 sums of file sizes
+        old(this).matched_size + start_at(content_of(*file), content_of(*file).len() as int) <= u64::MAX,
+        old(this).restore_size + start_at(content_of(*file), content_of(*file).len() as int) <= u64::MAX,
+    ensures
+        /*@every_blob_planned_at_its_offset*/ res is Ok ==> ({
+            let c = content_of(*file);
+            &&& final(this).r.log@.len() == old(this).r.log@.len() + c.len()
+            &&& forall|k: int| 0 <= k < c.len() ==> {
+                    let e = #[trigger] final(this).r.log@[old(this).r.log@.len() + k];
+                    e.0 == ENTRY(c[k]).pack && e.1 == ENTRY(c[k]).location
+                    && e.2.file_idx == old(this).names@.len() && e.2.file_start as int == start_at(c, k)
+                }
+            &&& final(this).r.log@.subrange(0, old(this).r.log@.len() as int) =~= old(this).r.log@
+        }),
+        /*@file_length_is_sum_of_blobs*/ res is Ok ==> final(this).file_lengths@ == old(this).file_lengths@.push(start_at(content_of(*file), content_of(*file).len() as int) as u64),
+        /*@verified_only_if_every_blob_matched*/ res matches Ok(AddFileResult::Verified) ==> open_file is Some
+              && forall|k: int| 0 <= k < content_of(*file).len() ==> (#[trigger] final(this).r.log@[old(this).r.log@.len() + k]).2.matches,
+""",
+         loops={1: """
+            invariant
+                forall|k: int| 0 <= k < content_of(*file).len() ==> dlen(#[trigger] content_of(*file)[k]) >= 0,
+                this.names@.len() == old(this).names@.len() + 1, file_idx == old(this).names@.len(),
+                this.file_lengths@ == old(this).file_lengths@,
+                (open_file is Some) == (of0 is Some),
+                file_pos as int == start_at(content_of(*file), it.index@),
+                this.matched_size + this.restore_size == old(this).matched_size + old(this).restore_size + file_pos,
+                this.matched_size >= old(this).matched_size, this.restore_size >= old(this).restore_size,
+                old(this).matched_size + start_at(content_of(*file), content_of(*file).len() as int) <= u64::MAX,
+                old(this).restore_size + start_at(content_of(*file), content_of(*file).len() as int) <= u64::MAX,
+                this.r.log@.len() == old(this).r.log@.len() + it.index@,
+                this.r.log@.subrange(0, old(this).r.log@.len() as int) =~= old(this).r.log@,
+                forall|k: int| 0 <= k < it.index@ ==> {
+                    let e = #[trigger] this.r.log@[old(this).r.log@.len() + k];
+                    e.0 == ENTRY(content_of(*file)[k]).pack && e.1 == ENTRY(content_of(*file)[k]).location
+                    && e.2.file_idx == file_idx && e.2.file_start as int == start_at(content_of(*file), k)
+                },
+                !has_unmatched ==> forall|k: int| 0 <= k < it.index@ ==> (#[trigger] this.r.log@[old(this).r.log@.len() + k]).2.matches,
+"""},
+         hints=[("before", "let mut file_pos = 0;", "        let ghost of0 = open_file;"),
+                ("before", "if matches {", "            proof { let n0 = old(this).r.log@.len() as int; assert(this.r.log@.subrange(0, n0) =~= log0.subrange(0, n0)); }"),
+                ("loop_start", "1", "            proof { let k = it.index@; assert(content_of(*file)[k] == *id); lemma_start_at_mono(content_of(*file), k + 1, content_of(*file).len() as int); }\n            let ghost log0 = this.r.log@;")],
          ),
 ]
 KANI = []
